@@ -9,7 +9,7 @@
      flows/inspect/results.go      Results (ResultContainer.Results on the action)
      flows/inspect/dependencies.go Dependencies, extractAssetReferences, NewDependencies (de-duplication by type:identity)
      flows/inspect/templates.go    Templates, Translations, ExtractFromTemplate, isFieldRefPath
-     flows/info.go                 NewResultInfo, NewResultSpecs (merge by key; categories merged with strings.EqualFold)
+     flows/info.go                 NewResultInfo, NewResultSpecs (merge by key; categories merged as exact strings)
      flows/routers/base.go         baseRouter.EnumerateResults, routeToCategory, RouteTimeout
      flows/routers/switch.go       Case.Dependencies (has_group), SwitchRouter.EnumerateTemplates/EnumerateDependencies
      flows/routers/waits/dial.go   DialWait.EnumerateTemplates (the phone template; via baseRouter.EnumerateTemplates)
@@ -67,6 +67,9 @@ Definition eq_fold (a b : text) : bool := text_eqb (lower_text a) (lower_text b)
 
 (* utils.StringSliceContains(slice, s, false) *)
 Definition contains_fold (l : list text) (c : text) : bool := existsb (eq_fold c) l.
+
+(* utils.StringSliceContains(slice, s, true) *)
+Definition contains_exact (l : list text) (c : text) : bool := existsb (text_eqb c) l.
 
 Definition is_space (c : N) : bool :=
   (c =? 9) || (c =? 10) || (c =? 11) || (c =? 12) || (c =? 13) || (c =? 32).
@@ -308,7 +311,7 @@ Record result_spec := { rs_key : text; rs_name : text; rs_cats : list text; rs_n
 Fixpoint merge_cats (existing new : list text) : list text :=
   match new with
   | [] => existing
-  | c :: r => merge_cats (if contains_fold existing c then existing else existing ++ [c]) r
+  | c :: r => merge_cats (if contains_exact existing c then existing else existing ++ [c]) r
   end.
 
 Definition merge_spec (s : result_spec) (nid : N) (i : result_info) : result_spec :=
